@@ -23,7 +23,7 @@ RULE = ('histories of handler callbacks (update_received, on_update_error, open_
         'event the directory is audited (every non-empty line one JSON object with t, seq, type, msg; exactly one line per logging '
         'callback; seq +1 from line to line across files) and crash points are injected: restart on a snapshot, truncation of the '
         'newest file at EVERY byte offset of the last record, an empty newest file; each followed by a restart (must not exit or raise), '
-        'further events and a final audit; peers written as IPv4 / IPv6 lower- and upper-case, events whole seconds or fractions apart; plus live sessions with DefaultHandler; distinct = distinct (history, crash point)')
+        'further events and a final audit; chains of 3-6 generations of the agent on one directory (events, rotations, a crash of a random kind, restart) audited at the end; peers written as IPv4 / IPv6 lower- and upper-case, events whole seconds or fractions apart; plus live sessions with DefaultHandler; distinct = distinct (history, crash point)')
 ASSUMPTIONS = ['crashes are modelled at file level: the log directory is what survives (fsync after every record is the code under test)',
                'simplejson stand-in encodes bytes as UTF-8 text like simplejson and raises on other bytes']
 SHARD_TIMEOUT = {'quick': 400, 'thorough': 2400}
@@ -194,7 +194,8 @@ def count_lines(root):
 
 def plan(tier, seed):
     n = 16
-    return [dict(part=i, seed=seed * 100 + i, nhist=100 if tier == 'quick' else 400, tier=tier) for i in range(n)] + [dict(kind='live', seed=seed, n=20 if tier == 'quick' else 100)]
+    return [dict(part=i, seed=seed * 100 + i, nhist=100 if tier == 'quick' else 400, tier=tier) for i in range(n)] + [dict(kind='live', seed=seed, n=20 if tier == 'quick' else 100)] + \
+        [dict(kind='chain', seed=seed * 10 + i, n=60 if tier == 'quick' else 1500) for i in range(4)]
 
 
 def run_shard(sh):
@@ -208,6 +209,8 @@ def run_shard(sh):
 
     if sh.get('kind') == 'live':
         return run_live(sh, res)
+    if sh.get('kind') == 'chain':
+        return run_chain(sh, res)
     rng = random.Random(sh['seed'])
     base = tempfile.mkdtemp(prefix='verif-c20-', dir=scratch_dir())
     try:
@@ -317,6 +320,87 @@ def run_shard(sh):
     return res
 
 
+def run_chain(sh, res):
+    """long lives: several generations of the agent on one directory - events, many rotations, a crash of a random kind,
+    a restart - with one audit at every restart and a final one"""
+    rng = random.Random(sh['seed'])
+    V = {}
+    base = tempfile.mkdtemp(prefix='verif-c20c-', dir=scratch_dir())
+    gens = rot = nev = 0
+    try:
+        for ci in range(sh['n']):
+            if budget.expired():
+                break
+            root = os.path.join(base, 'c%d' % ci)
+            os.makedirs(root)
+            CUR['peer'] = rng.choice(PEERS)
+            CUR['step'] = rng.choice([[1.0], [0.05, 0.25, 0.3, 1.0], [0.000001, 0.5, 3.0]])
+            max_size = rng.choice([300, 600, 1500, 10 ** 9])
+            wk = rng.random() < 0.3
+            peer = FakePeer()
+            reactor.reset()
+            expect = 0
+            rep = dict(chain=True, seed=sh['seed'], ci=ci, max_size=max_size, peer=CUR['peer'])
+            ok = True
+            for g in range(rng.choice([3, 4, 6])):
+                try:
+                    h = new_handler(root, max_size, wk)
+                except Exited as e:
+                    V.setdefault(('restart-exits', 'chain'), dict(kind='restart-exits', features=['chain', 'generation:%d' % min(g, 3)], detail='generation %d: %s' % (g, e), replay=rep))
+                    ok = False
+                    break
+                gens += 1
+                for _ in range(rng.randint(4, 25)):
+                    ev = rng.choice(EVENTS)
+                    f0 = len(glob.glob(os.path.join(root, pdir(), 'msg', '*.msg')))
+                    try:
+                        logs = fire(h, ev, rng, peer)
+                    except Exception as e:
+                        V.setdefault(('callback-raised', 'chain'), dict(kind='callback-raised', features=['chain', 'event:' + ev], detail='generation %d: callback %s raised %r' % (g, ev, e), replay=rep))
+                        ok = False
+                        break
+                    nev += 1
+                    expect += 1 if logs else 0
+                    rot += max(0, len(glob.glob(os.path.join(root, pdir(), 'msg', '*.msg'))) - f0)
+                close_handler(h)
+                if not ok:
+                    break
+                # the crash: nothing, a torn last record, or an empty newest file
+                files = sorted(glob.glob(os.path.join(root, pdir(), 'msg', '*.msg')))
+                how = rng.choice(['clean', 'torn', 'empty-newest', 'clean'])
+                if how == 'torn' and files and os.path.getsize(files[-1]) > 2:
+                    with open(files[-1], 'rb') as fh:
+                        data = fh.read()
+                    last_start = data.rfind(b'\n', 0, len(data) - 1) + 1
+                    with open(files[-1], 'r+b') as fh:
+                        fh.truncate(rng.randint(last_start, len(data) - 1))
+                    expect -= 1
+                elif how == 'empty-newest':
+                    # (the rotation that died right after creating its file happened a moment ago, before the restart)
+                    open(os.path.join(root, pdir(), 'msg', '%s.msg' % (1700000000.0 + reactor._now + 0.05)), 'w').close()
+                reactor._now += rng.choice([0.2, 2.0, 100.0])
+            if not ok:
+                continue
+            try:
+                h = new_handler(root, max_size, wk)      # the restart after the last crash repairs a torn tail
+                close_handler(h)
+            except Exited as e:
+                V.setdefault(('restart-exits', 'chain'), dict(kind='restart-exits', features=['chain', 'final'], detail='final restart: %s' % e, replay=rep))
+                continue
+            probs, nl, last, nf = audit(root)
+            for pk, pd in probs:
+                V.setdefault((pk, 'chain'), dict(kind=pk, features=['chain'], detail=pd + ' (after %d generations)' % (g + 1), replay=rep))
+            if not probs and nl != expect:
+                V.setdefault(('lines-lost', 'chain'), dict(kind='lines-lost', features=['chain'], detail='after %d generations the log has %d complete lines, %d were written and survived' % (g + 1, nl, expect), replay=rep))
+            res['evaluations'] += 1
+            res['distinct'].append('chain|%d|%d' % (sh['seed'], ci))
+    finally:
+        shutil.rmtree(base, ignore_errors=True)
+    res['counters'] = dict(chain_generations=gens, chain_rotations=rot, chain_events=nev)
+    res['violations'] = list(V.values())
+    return res
+
+
 def run_live(sh, res):
     """live sessions with the real DefaultHandler; the directory is audited after every event and after restarts"""
     rng = random.Random(sh['seed'])
@@ -371,7 +455,7 @@ def run_live(sh, res):
 def floors(m, tier):
     c = m['counters']
     unmet = []
-    for k, n in (('events', 500), ('clean_restarts', 300), ('torn_tail_restarts', 300), ('empty_newest_restarts', 300), ('rotations_forced', 30), ('live_session_events', 100),
+    for k, n in (('chain_generations', 200), ('chain_rotations', 200), ('events', 500), ('clean_restarts', 300), ('torn_tail_restarts', 300), ('empty_newest_restarts', 300), ('rotations_forced', 30), ('live_session_events', 100),
                  ('unserialisable_payloads', 20)):
         if c.get(k, 0) < n:
             unmet.append('%s below %d' % (k, n))
